@@ -30,6 +30,7 @@ func (m *monC07) OnTransition(t *Transition) []Violation {
 	if len(t.Pre.Auctions) > 0 {
 		m.st.Inc("blocks_with_auctions")
 		m.st.Case("status-vector", cls)
+		m.st.Inc("blocks_in_status_vector/" + cls)
 		last := t.Pre.Auctions[len(t.Pre.Auctions)-1]
 		if last.Status == ref.StatusFinished || last.Status == ref.StatusCancelled {
 			m.st.Inc("blocks_with_terminal_last_auction")
